@@ -240,97 +240,163 @@ example : searchBlank (str "Content-Disposition: form-data; name=\"a\"\r\n\r") =
 
 /-! ### P1: whole bodies -/
 
-/-- **decode_chunk_independent (CRLF-delimited bodies).** For every boundary without CR / LF and
-every body of the form
+/-- **decode_chunk_independent, for all three delimiter conventions.** `nl` is the line break the
+body uses for its delimiter and header lines: CRLF, bare LF or bare CR. For every boundary without
+CR / LF and every body of the form
 
-  preamble · CRLF `--boundary` CRLF headers CRLF CRLF payload … CRLF `--boundary--` · ep
+  preamble · NL `--boundary` NL headers NL NL payload … NL `--boundary--` · ep
 
-(`bodyOf bnd ep pr lead parts`): an arbitrary preamble `pr` that does not contain `--boundary`
-(`PreOk`; with `lead = false` the body starts directly with `--boundary`, as browsers send it); any
-list of parts satisfying the decidable predicate `ValidPart` (fields and files in any order, repeated
-names, empty / body-less / non-empty payloads made of CR, LF, CRLF runs, dashes, boundary prefixes and
-look-alikes, long lines, binary — `PayloadOk`: no *line* of the payload starts with `--boundary`;
-Unicode names; extra headers); arbitrary bytes `ep` after the closing `--boundary--` (the encoder's
-CRLF, an epilogue, transport padding, nothing) — and **every** list of chunks whose concatenation is
-that body: decoding chunk by chunk raises nothing and yields exactly the same parts — kind, name,
-filename, headers, byte-exact payload — as decoding the body in one piece, namely the given parts.
-The retained `_search_position` in PREAMBLE and PART, the hold-back in `_parse_data`, DATA_START
-waiting, a chunk ending between the CR and LF of a delimiter line, several parts in one chunk … are
-all covered. -/
-theorem decode_chunk_independent_partial {bnd : Bytes} (hb : BoundaryOk bnd) (ep pr : Bytes) (lead : Bool)
-    (hpre : PreOk bnd pr lead) (parts : List Part) (hv : ∀ p ∈ parts, ValidPart bnd p)
-    (chunks : List Bytes) (hjoin : chunks.flatten = bodyOf bnd ep pr lead parts) :
+(`bodyOf nl bnd ep pr lead parts`): an arbitrary preamble `pr` that does not contain `--boundary`
+(`PreOk`; for bare-LF bodies it must not end in CR, which would merge with the delimiter's LF; with
+`lead = false` the body starts directly with `--boundary`, as browsers send it); any list of parts
+satisfying the decidable predicate `ValidPart nl` (fields and files in any order, repeated names,
+empty / body-less / non-empty payloads made of line-break runs, dashes, boundary prefixes and
+look-alikes, long lines, binary — `PayloadOkNl`: no *line* of the payload starts with `--boundary`,
+and the property's side condition as an explicit decidable hypothesis `NoOther`: with bare-LF
+delimiters the payload contains no CR, with bare-CR delimiters no LF, no condition for CRLF; Unicode
+names; extra headers); arbitrary bytes `ep` after the closing `--boundary--` (a line break, an
+epilogue, transport padding, nothing) — and **every** list of chunks whose concatenation is that body:
+decoding chunk by chunk raises nothing and yields exactly the same parts — kind, name, filename,
+headers, byte-exact payload — as decoding the body in one piece, namely the given parts. The retained
+`_search_position` in PREAMBLE and PART, the hold-back in `_parse_data`, DATA_START waiting, a chunk
+ending between the CR and LF of a delimiter line, several parts in one chunk … are all covered. -/
+theorem decode_chunk_independent_nl {nl : Nl} {bnd : Bytes} (hb : BoundaryOk bnd) (ep pr : Bytes)
+    (lead : Bool) (hpre : PreOk nl bnd pr lead) (parts : List Part) (hv : ∀ p ∈ parts, ValidPart nl bnd p)
+    (chunks : List Bytes) (hjoin : chunks.flatten = bodyOf nl bnd ep pr lead parts) :
     (decodeChunks bnd none none chunks).err = none ∧
     partsOf (decodeChunks bnd none none chunks).events =
-      partsOf (decodeChunks bnd none none [bodyOf bnd ep pr lead parts]).events ∧
+      partsOf (decodeChunks bnd none none [bodyOf nl bnd ep pr lead parts]).events ∧
     partsOf (decodeChunks bnd none none chunks).events = parts.map decodedPart := by
-  have h1 := decode_chunks_full_lemma (ep := ep) hb hpre parts hv chunks hjoin
-  have h2 := decode_chunks_full_lemma (ep := ep) hb hpre parts hv [bodyOf bnd ep pr lead parts] (by simp)
+  have h1 := decode_chunks_full_lemma (nl := nl) (ep := ep) hb hpre parts hv chunks hjoin
+  have h2 := decode_chunks_full_lemma (nl := nl) (ep := ep) hb hpre parts hv [bodyOf nl bnd ep pr lead parts] (by simp)
   exact ⟨h1.1, by rw [h1.2, h2.2], h1.2⟩
 
-/-- without preamble and with the leading CRLF the body is `encBody` -/
-theorem bodyOf_encBody (bnd ep : Bytes) (parts : List Part) :
-    bodyOf bnd ep [] true parts = encBody bnd ep parts := by simp [bodyOf]
+/-- **decode_chunk_independent (CRLF-delimited bodies)**: the case `nl = CRLF`, where the payload is
+unrestricted apart from `--boundary` at a line start (`payloadOkNl_crlf`) -/
+theorem decode_chunk_independent_partial {bnd : Bytes} (hb : BoundaryOk bnd) (ep pr : Bytes) (lead : Bool)
+    (hpre : PreOk .crlf bnd pr lead) (parts : List Part) (hv : ∀ p ∈ parts, ValidPart .crlf bnd p)
+    (chunks : List Bytes) (hjoin : chunks.flatten = bodyOf .crlf bnd ep pr lead parts) :
+    (decodeChunks bnd none none chunks).err = none ∧
+    partsOf (decodeChunks bnd none none chunks).events =
+      partsOf (decodeChunks bnd none none [bodyOf .crlf bnd ep pr lead parts]).events ∧
+    partsOf (decodeChunks bnd none none chunks).events = parts.map decodedPart :=
+  decode_chunk_independent_nl hb ep pr lead hpre parts hv chunks hjoin
 
-/-- the body really is the encoder's output -/
-theorem encBody_is_encoder_output {bnd : Bytes} (parts : List Part) (hv : ∀ p ∈ parts, ValidPart bnd p) :
-    encodeAll bnd parts = .ok (encBody bnd stdEp parts) :=
+/-- the CRLF side conditions are the ones stated before the generalisation: any payload without
+`--boundary` at a line start, any preamble without `--boundary` -/
+theorem crlf_side_conditions (bnd pr payload : Bytes) :
+    (PayloadOkNl .crlf bnd payload ↔ PayloadOk bnd payload) ∧
+    (PreOk .crlf bnd pr true ↔ containsSub (delim bnd) pr = false) := by
+  refine ⟨payloadOkNl_crlf, ?_⟩
+  simp [PreOk]
+
+/-- without preamble and with the leading line break the body is `encBody` -/
+theorem bodyOf_encBody (bnd ep : Bytes) (parts : List Part) :
+    bodyOf .crlf bnd ep [] true parts = encBody .crlf bnd ep parts := by simp [bodyOf]
+
+/-- the CRLF body really is the encoder's output -/
+theorem encBody_is_encoder_output {bnd : Bytes} (parts : List Part) (hv : ∀ p ∈ parts, ValidPart .crlf bnd p) :
+    encodeAll bnd parts = .ok (encBody .crlf bnd stdEp parts) :=
   encodeAll_eq parts hv
 
 /-- non-vacuity: the F01a body (payload `x LF y…`) and a body-less field are valid parts, a preamble
 with line breaks and dashes is admissible, and a byte-at-a-time chunking is a chunking -/
 example :
     BoundaryOk (str "bound") ∧
-    ValidPart (str "bound") ⟨true, some ['a'], some ['f'], [], str "x\nyyyyyyyyyyyyyyyyyyyyyyyyyyy"⟩ ∧
-    ValidPart (str "bound") ⟨false, some ['b'], none, [], []⟩ ∧
-    PreOk (str "bound") (str "pre\r\namble --boun\r\n--") true ∧ PreOk (str "bound") [] false ∧
-    ¬ PreOk (str "bound") (str "x --bound y") true ∧
-    ((bodyOf (str "bound") (str "\r\nepilogue") (str "pre") true [⟨false, some ['b'], none, [], []⟩]).map
+    ValidPart .crlf (str "bound") ⟨true, some ['a'], some ['f'], [], str "x\nyyyyyyyyyyyyyyyyyyyyyyyyyyy"⟩ ∧
+    ValidPart .crlf (str "bound") ⟨false, some ['b'], none, [], []⟩ ∧
+    PreOk .crlf (str "bound") (str "pre\r\namble --boun\r\n--") true ∧ PreOk .crlf (str "bound") [] false ∧
+    ¬ PreOk .crlf (str "bound") (str "x --bound y") true ∧
+    ((bodyOf .crlf (str "bound") (str "\r\nepilogue") (str "pre") true [⟨false, some ['b'], none, [], []⟩]).map
         fun b => [b]).flatten =
-      bodyOf (str "bound") (str "\r\nepilogue") (str "pre") true [⟨false, some ['b'], none, [], []⟩] := by
+      bodyOf .crlf (str "bound") (str "\r\nepilogue") (str "pre") true [⟨false, some ['b'], none, [], []⟩] := by
   decide +kernel
 
-/-- **formParse_read_independent (one level up).** For every such body,
-`MultiPartParser(buffer_size=k).parse` over a stream that delivers short reads returns the same form
-fields and files for **every** `buffer_size` and **every** read schedule: the fields (name, value
-decoded with the part's charset) and files (name, filename, headers, byte-exact content) of the parts,
-in order (`formOfParts`); a part whose charset cannot be determined fails the same way for every
-schedule. -/
-theorem formParse_read_independent {bnd : Bytes} (hb : BoundaryOk bnd) (ep pr : Bytes) (lead : Bool)
-    (hpre : PreOk bnd pr lead) (parts : List Part) (hv : ∀ p ∈ parts, ValidPart bnd p)
+/-- non-vacuity for bare LF / bare CR: payloads with the own newline kind are valid, with the other
+kind they are not (the side condition is needed: such bodies decode differently); a bare-LF
+preamble may contain CR but not end in it; and the bodies look as expected -/
+example :
+    ValidPart .lf (str "bound") ⟨false, some ['a'], none, [], str "x\n\n--boun\ny"⟩ ∧
+    ¬ ValidPart .lf (str "bound") ⟨false, some ['a'], none, [], str "x\r\ny"⟩ ∧
+    ValidPart .cr (str "bound") ⟨true, some ['a'], some ['f'], [], str "\rx\r\r--\r"⟩ ∧
+    ¬ ValidPart .cr (str "bound") ⟨false, some ['a'], none, [], str "x\ny"⟩ ∧
+    ¬ ValidPart .cr (str "bound") ⟨false, some ['a'], none, [], str "x\r--bound"⟩ ∧
+    PreOk .lf (str "bound") (str "pre\r\namble\n") true ∧ ¬ PreOk .lf (str "bound") (str "pre\r") true ∧
+    PreOk .cr (str "bound") (str "pre\r") true ∧
+    bodyOf .lf (str "b") (str "\n") (str "p") true [⟨false, some ['a'], none, [], str "v"⟩] =
+      str "p\n--b\nContent-Disposition: form-data; name=\"a\"\n\nv\n--b--\n" ∧
+    bodyOf .cr (str "b") [] [] false [⟨false, some ['a'], none, [], []⟩] =
+      str "--b\rContent-Disposition: form-data; name=\"a\"\r\r--b--" := by
+  decide +kernel
+
+/-- **formParse_read_independent (one level up), for all three delimiter conventions.** For every
+such body, `MultiPartParser(buffer_size=k).parse` over a stream that delivers short reads returns the
+same form fields and files for **every** `buffer_size` and **every** read schedule: the fields (name,
+value decoded with the part's charset) and files (name, filename, headers, byte-exact content) of the
+parts, in order (`formOfParts`); a part whose charset cannot be determined fails the same way for
+every schedule. -/
+theorem formParse_read_independent_nl {nl : Nl} {bnd : Bytes} (hb : BoundaryOk bnd) (ep pr : Bytes)
+    (lead : Bool) (hpre : PreOk nl bnd pr lead) (parts : List Part) (hv : ∀ p ∈ parts, ValidPart nl bnd p)
     (bufSize : Nat) (sched : List Nat) :
-    formParse bnd none none bufSize sched (bodyOf bnd ep pr lead parts) =
+    formParse bnd none none bufSize sched (bodyOf nl bnd ep pr lead parts) =
       formOfParts ([], []) (parts.map decodedPart) :=
-  formParse_lemma (ep := ep) hb hpre parts hv bufSize sched
+  formParse_lemma (nl := nl) (ep := ep) hb hpre parts hv bufSize sched
 
 /-- in particular any two buffer sizes / schedules agree, e.g. byte-at-a-time and one full read -/
-theorem formParse_bufsize_irrelevant {bnd : Bytes} (hb : BoundaryOk bnd) (ep pr : Bytes) (lead : Bool)
-    (hpre : PreOk bnd pr lead) (parts : List Part) (hv : ∀ p ∈ parts, ValidPart bnd p)
+theorem formParse_bufsize_irrelevant_nl {nl : Nl} {bnd : Bytes} (hb : BoundaryOk bnd) (ep pr : Bytes)
+    (lead : Bool) (hpre : PreOk nl bnd pr lead) (parts : List Part) (hv : ∀ p ∈ parts, ValidPart nl bnd p)
     (b1 b2 : Nat) (s1 s2 : List Nat) :
-    formParse bnd none none b1 s1 (bodyOf bnd ep pr lead parts) =
-      formParse bnd none none b2 s2 (bodyOf bnd ep pr lead parts) := by
-  rw [formParse_read_independent hb ep pr lead hpre parts hv,
-    formParse_read_independent hb ep pr lead hpre parts hv]
+    formParse bnd none none b1 s1 (bodyOf nl bnd ep pr lead parts) =
+      formParse bnd none none b2 s2 (bodyOf nl bnd ep pr lead parts) := by
+  rw [formParse_read_independent_nl hb ep pr lead hpre parts hv,
+    formParse_read_independent_nl hb ep pr lead hpre parts hv]
+
+/-- **formParse_read_independent (CRLF-delimited bodies)** -/
+theorem formParse_read_independent {bnd : Bytes} (hb : BoundaryOk bnd) (ep pr : Bytes) (lead : Bool)
+    (hpre : PreOk .crlf bnd pr lead) (parts : List Part) (hv : ∀ p ∈ parts, ValidPart .crlf bnd p)
+    (bufSize : Nat) (sched : List Nat) :
+    formParse bnd none none bufSize sched (bodyOf .crlf bnd ep pr lead parts) =
+      formOfParts ([], []) (parts.map decodedPart) :=
+  formParse_read_independent_nl hb ep pr lead hpre parts hv bufSize sched
+
+/-- **formParse_bufsize_irrelevant (CRLF-delimited bodies)** -/
+theorem formParse_bufsize_irrelevant {bnd : Bytes} (hb : BoundaryOk bnd) (ep pr : Bytes) (lead : Bool)
+    (hpre : PreOk .crlf bnd pr lead) (parts : List Part) (hv : ∀ p ∈ parts, ValidPart .crlf bnd p)
+    (b1 b2 : Nat) (s1 s2 : List Nat) :
+    formParse bnd none none b1 s1 (bodyOf .crlf bnd ep pr lead parts) =
+      formParse bnd none none b2 s2 (bodyOf .crlf bnd ep pr lead parts) :=
+  formParse_bufsize_irrelevant_nl hb ep pr lead hpre parts hv b1 b2 s1 s2
 
 /-- non-vacuity / sanity: a field and a file, read one byte at a time -/
 example :
     (formParse (str "b") none none 1 []
-      (bodyOf (str "b") stdEp [] false [⟨false, some ['a'], none, [], str "v\r\n-"⟩,
+      (bodyOf .crlf (str "b") stdEp [] false [⟨false, some ['a'], none, [], str "v\r\n-"⟩,
                           ⟨true, some ['f'], some ['x'], [], [0, 255]⟩])).toOption =
     some ([(some ['a'], "v\r\n-".toList)],
           [⟨some ['f'], ['x'], [("Content-Disposition".toList, "form-data; name=\"f\"; filename=\"x\"".toList)],
             [0, 255]⟩]) := by
   decide +kernel
 
+/-- the same through bare-LF and bare-CR bodies, read three bytes at a time -/
+example :
+    (formParse (str "b") none none 3 []
+      (bodyOf .lf (str "b") (str "\n") (str "pre") true [⟨false, some ['a'], none, [], str "v\n-"⟩])).toOption =
+      some ([(some ['a'], "v\n-".toList)], []) := by
+  decide +kernel
+
+example :
+    (formParse (str "b") none none 3 []
+      (bodyOf .cr (str "b") [] [] false [⟨false, some ['a'], none, [], str "v\r-"⟩])).toOption =
+      some ([(some ['a'], "v\r-".toList)], []) := by
+  decide +kernel
+
 /-
 OPEN (P1) — stated, not proved:
 
--- OPEN: decode_chunk_independent for the rest of the property's grammar: bare-LF / bare-CR delimiters
--- (with payloads free of the other newline kind), a preamble that contains `--boundary` without being
--- a delimiter, and header blocks other than `Name: value` lines (continuations, odd white space).
--- The proof of `decode_chunk_independent_partial` (Lemmas/MultipartChunks.lean: an invariant `Good`
--- per phase, one `next_event` lemma per phase valid on every prefix of the stream, accounting of the
--- Data events) depends on the line break only through `AfterDelim`, `hdrBlock` and `PayloadOk`.
+-- OPEN: decode_chunk_independent for the rest of the property's grammar: a preamble that contains
+-- `--boundary` without being a delimiter, and header blocks other than `Name: value` lines
+-- (continuations, odd white space, header lines broken with a line break other than the delimiter's).
+-- Bodies that mix line-break conventions between delimiter lines are not covered either.
 -- The unrestricted statement is false (`decode_chunk_independent_full_false`, finding F01c: transport
 -- padding on the first delimiter).
 
